@@ -1,7 +1,1316 @@
-//! C12 — not implemented yet (stub).
-use crate::engine::Args;
+//! C12 — traffic only goes to backends that are eligible right now.
+//!
+//! Stateful PBT on the real `sozu_lib::backends::BackendMap` / `BackendList` against a
+//! reference model of eligibility (member ∧ Normal ∧ healthy ∧ ¬in back-off), the
+//! primary → backup → documented fail-open cascade, sticky-cookie precedence, HRW/Maglev
+//! key affinity, and per-backend connection/request counters. In-process tier only: the
+//! selection entry points used are the ones that do not need a live peer
+//! (`BackendMap::backend_from_cluster_id_with_key`, `BackendList::find_sticky`); a
+//! "connection" is the `Rc<RefCell<Backend>>` handle a session would hold, opened with
+//! `inc_connections()` (what `try_connect` does on success) and closed with
+//! `dec_connections()`. See DESIGN.md §4 C12 and scratch/design_C12.md.
+//!
+//! Sub-checks (same generator and oracle, partitioned by policy so that one defect does not
+//! hide the rest of the exploration):
+//! * `history`         — round robin, random, least loaded, HRW, Maglev; membership / sticky /
+//!   counters / drain-then-retire.
+//! * `power_of_two`    — the same with the power-of-two policy (and its three metrics).
+//! * `affinity_hrw`, `affinity_maglev` — one affinity policy, mostly keyed selections;
+//!   additionally: same key → same backend while the eligible set is unchanged.
 
-pub fn run(_args: &Args) -> i32 {
-    println!("INCONCLUSIVE: C12 has no check yet");
-    2
+use std::{cell::RefCell, collections::BTreeMap, net::SocketAddr, rc::Rc, time::Duration};
+
+use proptest::prelude::*;
+use serde::{Deserialize, Serialize};
+use sozu_command_lib::proto::command::{
+    EventKind, LoadBalancingAlgorithms, LoadBalancingParams, LoadMetric,
+    response_content::ContentType,
+};
+use sozu_lib::{
+    backends::{Backend, BackendMap, BackendStatus},
+    retry::{RetryAction, RetryPolicy},
+    server::QUEUE,
+};
+
+use crate::engine::{self, Args, CaseReport, CheckResult, Evidence, Failure};
+
+// ------------------------------------------------------------------ constants
+
+const MAX_ADDRS: u8 = 6;
+/// `Backend::new` gives every backend `ExponentialBackoffPolicy::new(6)`
+const MAX_TRIES: usize = 6;
+/// a back-off window that cannot elapse during a case
+const LONG_BACKOFF: Duration = Duration::from_secs(3600);
+/// affinity keys (fixed, spread over the u64 space; the generator picks an index)
+const KEYS: [u64; 8] = [
+    0,
+    1,
+    42,
+    65_537,
+    0x9E37_79B9_7F4A_7C15,
+    0xDEAD_BEEF_CAFE_F00D,
+    u64::MAX,
+    0x0123_4567_89AB_CDEF,
+];
+const POLICY_NAMES: [&str; 6] = ["round_robin", "random", "least_loaded", "power_of_two", "hrw", "maglev"];
+
+fn cluster_id(c: usize) -> &'static str {
+    if c == 0 { "c0" } else { "c1" }
+}
+
+fn addr_of(a: u8) -> SocketAddr {
+    if a == 5 {
+        // one IPv6 member so both hashing branches are exercised
+        "[fd00::5]:8085".parse().unwrap()
+    } else {
+        format!("10.9.0.{}:{}", a + 1, 8080 + a as u16).parse().unwrap()
+    }
+}
+
+fn backend_id_of(a: u8, v: u8) -> String {
+    format!("b{a}v{v}")
+}
+
+fn cookie_of(a: u8, v: u8) -> String {
+    format!("sk-{a}-{v}")
+}
+
+fn algo_of(x: u8) -> LoadBalancingAlgorithms {
+    match x {
+        0 => LoadBalancingAlgorithms::RoundRobin,
+        1 => LoadBalancingAlgorithms::Random,
+        2 => LoadBalancingAlgorithms::LeastLoaded,
+        3 => LoadBalancingAlgorithms::PowerOfTwo,
+        4 => LoadBalancingAlgorithms::Hrw,
+        _ => LoadBalancingAlgorithms::Maglev,
+    }
+}
+
+fn metric_of(x: u8) -> Option<LoadMetric> {
+    match x {
+        0 => Some(LoadMetric::Connections),
+        1 => Some(LoadMetric::Requests),
+        2 => Some(LoadMetric::ConnectionTime),
+        _ => None,
+    }
+}
+
+// ------------------------------------------------------------------ case
+
+#[derive(Clone, Debug, Serialize, Deserialize)]
+pub enum Op {
+    /// add, or update in place when (address, id) is already a member
+    Add { c: u8, a: u8, v: u8, weight: Option<u8>, backup: bool, sticky: bool },
+    /// address-keyed removal (drops every id at that address)
+    Remove { c: u8, a: u8 },
+    SetPolicy { c: u8, algo: u8, metric: u8 },
+    /// `n` consecutive failed health probes on member `b`
+    HealthFail { c: u8, b: u32, n: u8 },
+    /// `n` consecutive successful health probes on member `b`
+    HealthOk { c: u8, b: u32, n: u8 },
+    /// `set_health_check_config(cluster, None)`: resets every member to healthy
+    ClearHealth { c: u8 },
+    /// `retry_policy.fail()` (a failed connect), window then pinned to 3600 s
+    RetryFail { c: u8, b: u32 },
+    RetrySucceed { c: u8, b: u32 },
+    ForceDown { c: u8, b: u32 },
+    ForceBackoff { c: u8, b: u32 },
+    ExpireBackoff { c: u8, b: u32 },
+    /// `Backend::set_closing()` on a member ("being removed")
+    MarkClosing { c: u8, b: u32 },
+    ConnTime { c: u8, b: u32, ms: u16 },
+    /// selection only
+    Select { c: u8, key: Option<u8> },
+    /// selection + `inc_connections`
+    Open { c: u8, key: Option<u8> },
+    /// selection with the sticky cookie of backend (a, v), + `inc_connections`
+    OpenSticky { c: u8, a: u8, v: u8 },
+    Close { conn: u32 },
+    StartReq { conn: u32 },
+    EndReq { conn: u32 },
+}
+
+#[derive(Clone, Debug, Serialize, Deserialize)]
+pub struct Case {
+    pub th_unhealthy: u32,
+    pub th_healthy: u32,
+    pub ops: Vec<Op>,
+    /// assert key affinity (sub-check `affinity`)
+    #[serde(default)]
+    pub affinity: bool,
+    /// reproducer mode: do not exclude the known-finding shape `C12/affinity-moved:maglev`
+    /// (a Maglev table rebuild while the eligible set is unchanged), fail with its signature
+    #[serde(default)]
+    pub strict: bool,
+}
+
+fn cluster_strategy() -> impl Strategy<Value = u8> {
+    prop_oneof![5 => Just(0u8), 1 => Just(1u8)]
+}
+
+fn variant_strategy() -> impl Strategy<Value = u8> {
+    prop_oneof![11 => Just(0u8), 1 => Just(1u8)]
+}
+
+fn weight_strategy() -> impl Strategy<Value = Option<u8>> {
+    prop_oneof![
+        4 => Just(None),
+        2 => Just(Some(100u8)),
+        1 => Just(Some(0u8)),
+        1 => Just(Some(1u8)),
+        1 => Just(Some(50u8)),
+        1 => Just(Some(255u8)),
+        1 => any::<u8>().prop_map(Some),
+    ]
+}
+
+fn key_strategy(affinity: bool) -> BoxedStrategy<Option<u8>> {
+    if affinity {
+        prop_oneof![1 => Just(None), 9 => (0u8..KEYS.len() as u8).prop_map(Some)].boxed()
+    } else {
+        prop_oneof![3 => Just(None), 2 => (0u8..KEYS.len() as u8).prop_map(Some)].boxed()
+    }
+}
+
+fn add_strategy() -> impl Strategy<Value = Op> {
+    (
+        cluster_strategy(),
+        0u8..MAX_ADDRS,
+        variant_strategy(),
+        weight_strategy(),
+        prop::bool::weighted(0.3),
+        prop::bool::weighted(0.75),
+    )
+        .prop_map(|(c, a, v, weight, backup, sticky)| Op::Add { c, a, v, weight, backup, sticky })
+}
+
+/// which policies a sub-check draws from
+#[derive(Clone, Copy, Debug, PartialEq, Eq)]
+enum Mode {
+    /// every policy but power-of-two
+    History,
+    PowerOfTwo,
+    Hrw,
+    Maglev,
+}
+
+impl Mode {
+    fn affinity(self) -> bool {
+        matches!(self, Mode::Hrw | Mode::Maglev)
+    }
+}
+
+fn policy_strategy(mode: Mode) -> BoxedStrategy<Op> {
+    let algo = match mode {
+        Mode::History => prop_oneof![Just(0u8), Just(1u8), Just(2u8), Just(4u8), Just(5u8)].boxed(),
+        Mode::PowerOfTwo => Just(3u8).boxed(),
+        Mode::Hrw => Just(4u8).boxed(),
+        Mode::Maglev => Just(5u8).boxed(),
+    };
+    (cluster_strategy(), algo, 0u8..4)
+        .prop_map(|(c, algo, metric)| Op::SetPolicy { c, algo, metric })
+        .boxed()
+}
+
+fn op_strategy(mode: Mode) -> impl Strategy<Value = Op> {
+    let affinity = mode.affinity();
+    let c = cluster_strategy;
+    let b = any::<u32>;
+    prop_oneof![
+        10 => add_strategy(),
+        5 => (c(), 0u8..MAX_ADDRS).prop_map(|(c, a)| Op::Remove { c, a }),
+        if affinity { 2 } else { 4 } => policy_strategy(mode),
+        6 => (c(), b(), 1u8..4).prop_map(|(c, b, n)| Op::HealthFail { c, b, n }),
+        4 => (c(), b(), 1u8..4).prop_map(|(c, b, n)| Op::HealthOk { c, b, n }),
+        1 => c().prop_map(|c| Op::ClearHealth { c }),
+        4 => (c(), b()).prop_map(|(c, b)| Op::RetryFail { c, b }),
+        2 => (c(), b()).prop_map(|(c, b)| Op::RetrySucceed { c, b }),
+        1 => (c(), b()).prop_map(|(c, b)| Op::ForceDown { c, b }),
+        3 => (c(), b()).prop_map(|(c, b)| Op::ForceBackoff { c, b }),
+        3 => (c(), b()).prop_map(|(c, b)| Op::ExpireBackoff { c, b }),
+        1 => (c(), b()).prop_map(|(c, b)| Op::MarkClosing { c, b }),
+        1 => (c(), b(), 0u16..2000).prop_map(|(c, b, ms)| Op::ConnTime { c, b, ms }),
+        if affinity { 12 } else { 8 } => (c(), key_strategy(affinity)).prop_map(|(c, key)| Op::Select { c, key }),
+        12 => (c(), key_strategy(affinity)).prop_map(|(c, key)| Op::Open { c, key }),
+        6 => (c(), 0u8..MAX_ADDRS, variant_strategy()).prop_map(|(c, a, v)| Op::OpenSticky { c, a, v }),
+        8 => any::<u32>().prop_map(|conn| Op::Close { conn }),
+        2 => any::<u32>().prop_map(|conn| Op::StartReq { conn }),
+        2 => any::<u32>().prop_map(|conn| Op::EndReq { conn }),
+    ]
+}
+
+fn normalise(op: Op, two_clusters: bool, n_addrs: u8) -> Op {
+    let cc = |c: u8| if two_clusters { c } else { 0 };
+    let aa = |a: u8| a.min(n_addrs - 1);
+    match op {
+        Op::Add { c, a, v, weight, backup, sticky } => Op::Add { c: cc(c), a: aa(a), v, weight, backup, sticky },
+        Op::Remove { c, a } => Op::Remove { c: cc(c), a: aa(a) },
+        Op::SetPolicy { c, algo, metric } => Op::SetPolicy { c: cc(c), algo, metric },
+        Op::HealthFail { c, b, n } => Op::HealthFail { c: cc(c), b, n },
+        Op::HealthOk { c, b, n } => Op::HealthOk { c: cc(c), b, n },
+        Op::ClearHealth { c } => Op::ClearHealth { c: cc(c) },
+        Op::RetryFail { c, b } => Op::RetryFail { c: cc(c), b },
+        Op::RetrySucceed { c, b } => Op::RetrySucceed { c: cc(c), b },
+        Op::ForceDown { c, b } => Op::ForceDown { c: cc(c), b },
+        Op::ForceBackoff { c, b } => Op::ForceBackoff { c: cc(c), b },
+        Op::ExpireBackoff { c, b } => Op::ExpireBackoff { c: cc(c), b },
+        Op::MarkClosing { c, b } => Op::MarkClosing { c: cc(c), b },
+        Op::ConnTime { c, b, ms } => Op::ConnTime { c: cc(c), b, ms },
+        Op::Select { c, key } => Op::Select { c: cc(c), key },
+        Op::Open { c, key } => Op::Open { c: cc(c), key },
+        Op::OpenSticky { c, a, v } => Op::OpenSticky { c: cc(c), a: aa(a), v },
+        o @ (Op::Close { .. } | Op::StartReq { .. } | Op::EndReq { .. }) => o,
+    }
+}
+
+fn strategy_for(mode: Mode) -> impl Strategy<Value = Case> {
+    let affinity = mode.affinity();
+    (
+        prop_oneof![3 => Just(1u32), 1 => Just(2u32), 1 => Just(3u32)],
+        prop_oneof![3 => Just(1u32), 1 => Just(2u32), 1 => Just(3u32)],
+        prop::bool::weighted(0.3),
+        1u8..=MAX_ADDRS,
+        policy_strategy(mode),
+        prop::collection::vec(add_strategy(), 1..6),
+        // no lower bound on the body: proptest cannot shrink a vec below its minimum length
+        prop::collection::vec(op_strategy(mode), 0..46),
+    )
+        .prop_map(move |(th_unhealthy, th_healthy, two, n_addrs, policy, adds, body)| {
+            let mut ops = Vec::with_capacity(1 + adds.len() + body.len());
+            // the prefix always targets cluster 0 so that state accumulates there
+            ops.push(normalise(policy, false, n_addrs));
+            ops.extend(adds.into_iter().map(|o| normalise(o, false, n_addrs)));
+            ops.extend(body.into_iter().map(|o| normalise(o, two, n_addrs)));
+            Case { th_unhealthy, th_healthy, ops, affinity, strict: false }
+        })
+}
+
+pub fn strategy() -> impl Strategy<Value = Case> {
+    strategy_for(Mode::History)
+}
+
+// ------------------------------------------------------------------ model
+
+#[derive(Clone, Copy, Debug, PartialEq, Eq)]
+enum St {
+    Normal,
+    Closing,
+    Closed,
+}
+
+#[derive(Clone, Debug)]
+struct MB {
+    a: u8,
+    v: u8,
+    weight: Option<u8>,
+    backup: bool,
+    sticky: bool,
+    st: St,
+    healthy: bool,
+    succ: u32,
+    fails: u32,
+    in_backoff: bool,
+    tries: usize,
+    open: usize,
+    reqs: usize,
+    member: bool,
+}
+
+impl MB {
+    /// the property's "eligible right now"
+    fn eligible(&self) -> bool {
+        self.member && self.st == St::Normal && self.healthy && !self.in_backoff
+    }
+    /// the documented fail-open candidate: administratively normal and not backing off
+    fn fail_open_ok(&self) -> bool {
+        self.member && self.st == St::Normal && !self.in_backoff
+    }
+    fn why_not(&self) -> &'static str {
+        if !self.member {
+            "not-member"
+        } else if self.st != St::Normal {
+            "being-removed"
+        } else if self.in_backoff {
+            "in-backoff"
+        } else if !self.healthy {
+            "unhealthy"
+        } else {
+            "backup-while-primary-eligible"
+        }
+    }
+}
+
+#[derive(Clone, Debug, Default)]
+struct MCluster {
+    exists: bool,
+    members: Vec<usize>,
+    /// policy in force (index into POLICY_NAMES); sozu's default is Random
+    policy: u8,
+    epoch: u32,
+}
+
+#[derive(Clone, Copy, Debug, PartialEq, Eq)]
+enum Tier {
+    Primary,
+    Backup,
+    FailOpen,
+    None,
+}
+
+type Fingerprint = (u32, bool, Vec<(u8, u8, Option<u8>, bool)>);
+
+struct Model {
+    insts: Vec<MB>,
+    clusters: [MCluster; 2],
+}
+
+impl Model {
+    fn admissible(&self, c: usize) -> (Tier, Vec<usize>) {
+        let m = &self.clusters[c].members;
+        let prim: Vec<usize> = m.iter().copied().filter(|&i| self.insts[i].eligible() && !self.insts[i].backup).collect();
+        if !prim.is_empty() {
+            return (Tier::Primary, prim);
+        }
+        let back: Vec<usize> = m.iter().copied().filter(|&i| self.insts[i].eligible() && self.insts[i].backup).collect();
+        if !back.is_empty() {
+            return (Tier::Backup, back);
+        }
+        let fo: Vec<usize> = m.iter().copied().filter(|&i| self.insts[i].fail_open_ok()).collect();
+        if !fo.is_empty() {
+            return (Tier::FailOpen, fo);
+        }
+        (Tier::None, vec![])
+    }
+
+    fn any_ineligible_member(&self, c: usize) -> bool {
+        self.clusters[c].members.iter().any(|&i| !self.insts[i].eligible())
+    }
+
+    /// The eligible set of a cluster with the attributes selection depends on (or, when
+    /// nobody is eligible, the fail-open set), tagged with the policy epoch.
+    fn fingerprint(&self, c: usize) -> Fingerprint {
+        let m = &self.clusters[c].members;
+        let attrs = |i: &usize| {
+            let b = &self.insts[*i];
+            (b.a, b.v, b.weight, b.backup)
+        };
+        let mut el: Vec<_> = m.iter().filter(|&&i| self.insts[i].eligible()).map(attrs).collect();
+        let mut fo = false;
+        if el.is_empty() {
+            fo = true;
+            el = m.iter().filter(|&&i| self.insts[i].fail_open_ok()).map(attrs).collect();
+        }
+        el.sort();
+        (self.clusters[c].epoch, fo, el)
+    }
+
+    fn member_idx(&self, c: usize, x: u32) -> Option<usize> {
+        let m = &self.clusters[c].members;
+        if m.is_empty() { None } else { Some(m[engine::pick_idx(x, m.len())]) }
+    }
+
+    fn find_member(&self, c: usize, a: u8, v: u8) -> Option<usize> {
+        self.clusters[c].members.iter().copied().find(|&i| self.insts[i].a == a && self.insts[i].v == v)
+    }
+}
+
+struct Conn {
+    inst: usize,
+    rc: Rc<RefCell<Backend>>,
+    req: bool,
+}
+
+// ------------------------------------------------------------------ driving sozu
+
+fn drain_retire_events() -> Vec<(String, SocketAddr)> {
+    let mut out = vec![];
+    QUEUE.with(|q| {
+        for resp in q.borrow_mut().drain(..) {
+            if let Some(ContentType::Event(e)) = resp.content.and_then(|c| c.content_type) {
+                if e.kind == EventKind::RemovedBackendHasNoConnections as i32 {
+                    out.push((e.backend_id.unwrap_or_default(), e.address.map(SocketAddr::from).unwrap_or_else(|| "0.0.0.0:0".parse().unwrap())));
+                }
+            }
+        }
+    });
+    out.sort();
+    out
+}
+
+fn member_rc(map: &BackendMap, c: usize, a: u8, v: u8) -> Option<Rc<RefCell<Backend>>> {
+    let id = backend_id_of(a, v);
+    let addr = addr_of(a);
+    map.backends.get(cluster_id(c)).and_then(|l| {
+        l.backends
+            .iter()
+            .find(|b| {
+                let b = b.borrow();
+                b.backend_id == id && b.address == addr
+            })
+            .cloned()
+    })
+}
+
+struct Ctx<'a> {
+    case: &'a Case,
+    map: BackendMap,
+    model: Model,
+    conns: Vec<Conn>,
+    rep: CaseReport,
+    /// (cluster, key index) -> (fingerprint, chosen (a, v))
+    memo: BTreeMap<(usize, u8), (Fingerprint, (u8, u8))>,
+    last_fp: [Option<Fingerprint>; 2],
+    /// the last op made sozu rebuild the cluster's Maglev table with different inputs through a
+    /// change to a member that is not eligible (removal, in-place weight update)
+    rebuilt_by_ineligible: [bool; 2],
+    excluded_known: u64,
+    expected_events: Vec<(String, SocketAddr)>,
+    selections: u64,
+    flags: Flags,
+}
+
+#[derive(Default)]
+struct Flags {
+    readd: bool,
+    health_flip: bool,
+    backoff_flip: bool,
+    select_with_ineligible: bool,
+    tier_primary: bool,
+    tier_backup: bool,
+    tier_failopen: bool,
+    tier_none: bool,
+    sticky_hit: bool,
+    sticky_fallback: bool,
+    sticky_backup_wins: bool,
+    drain_after_remove: bool,
+    retired_after_drain: bool,
+    in_place_update: bool,
+    shared_address: bool,
+    two_clusters: bool,
+    closing: bool,
+    down: bool,
+    affinity_repeat: bool,
+    maglev_rebuild_excluded: bool,
+    update_emits_retire_event: bool,
+    policies: [bool; 6],
+}
+
+impl Ctx<'_> {
+    /// Admissible-set oracle for one selection result. `picked` is the (id, address) sozu returned.
+    fn judge(&mut self, c: usize, picked: Option<(String, SocketAddr)>, what: &str) -> Result<Option<usize>, Failure> {
+        let (tier, adm) = self.model.admissible(c);
+        self.selections += 1;
+        match tier {
+            Tier::Primary => self.flags.tier_primary = true,
+            Tier::Backup => self.flags.tier_backup = true,
+            Tier::FailOpen => self.flags.tier_failopen = true,
+            Tier::None => self.flags.tier_none = true,
+        }
+        if self.model.any_ineligible_member(c) {
+            self.flags.select_with_ineligible = true;
+        }
+        let Some((id, addr)) = picked else {
+            if !adm.is_empty() {
+                fail!(
+                    "C12/no-backend-despite-candidates",
+                    "{what} on {}: sozu returned no backend but the model's {tier:?} set is {:?}",
+                    cluster_id(c),
+                    self.describe(&adm)
+                );
+            }
+            return Ok(None);
+        };
+        // identify the instance: a current member first, otherwise any instance ever created
+        let inst = self.model.clusters[c]
+            .members
+            .iter()
+            .copied()
+            .find(|&i| backend_id_of(self.model.insts[i].a, self.model.insts[i].v) == id && addr_of(self.model.insts[i].a) == addr);
+        let Some(inst) = inst else {
+            fail!(
+                "C12/selected-ineligible:not-member",
+                "{what} on {}: sozu picked ({id}, {addr}) which is not a current member; members={:?}",
+                cluster_id(c),
+                self.describe(&self.model.clusters[c].members)
+            );
+        };
+        if !adm.contains(&inst) {
+            let why = self.model.insts[inst].why_not();
+            fail!(
+                format!("C12/selected-ineligible:{why}"),
+                "{what} on {} (policy {}): sozu picked ({id}, {addr}) [{why}] but the admissible {tier:?} set is {:?}; members={:?}",
+                cluster_id(c),
+                POLICY_NAMES[self.model.clusters[c].policy as usize],
+                self.describe(&adm),
+                self.describe(&self.model.clusters[c].members)
+            );
+        }
+        Ok(Some(inst))
+    }
+
+    fn describe(&self, v: &[usize]) -> Vec<String> {
+        v.iter()
+            .map(|&i| {
+                let b = &self.model.insts[i];
+                format!(
+                    "{}{}{}{}{}",
+                    backend_id_of(b.a, b.v),
+                    if b.backup { "/backup" } else { "" },
+                    if b.healthy { "" } else { "/unhealthy" },
+                    if b.in_backoff { "/backoff" } else { "" },
+                    if b.st == St::Normal { "" } else { "/closing" },
+                )
+            })
+            .collect()
+    }
+
+    /// plain (optionally keyed) selection through the BackendMap entry point that does not connect
+    fn select(&mut self, c: usize, key: Option<u8>, what: &str) -> Result<Option<usize>, Failure> {
+        let k = key.map(|k| KEYS[k as usize % KEYS.len()]);
+        let picked = self.map.backend_from_cluster_id_with_key(cluster_id(c), k).ok();
+        let inst = self.judge(c, picked, what)?;
+        if let (Some(kidx), Some(inst)) = (key, inst) {
+            self.affinity_observe(c, kidx, inst)?;
+        }
+        Ok(inst)
+    }
+
+    /// HRW / Maglev: same key → same backend while the eligible set is unchanged
+    fn affinity_observe(&mut self, c: usize, kidx: u8, inst: usize) -> Result<(), Failure> {
+        let pol = self.model.clusters[c].policy;
+        if pol < 4 {
+            return Ok(());
+        }
+        let fp = self.model.fingerprint(c);
+        let got = (self.model.insts[inst].a, self.model.insts[inst].v);
+        if let Some((old_fp, old)) = self.memo.get(&(c, kidx)) {
+            if *old_fp == fp {
+                self.flags.affinity_repeat = true;
+                if *old != got && self.case.affinity {
+                    fail!(
+                        format!("C12/affinity-moved:{}", POLICY_NAMES[pol as usize]),
+                        "{} policy {}: key {:#x} went to {} and now goes to {} although the eligible set is unchanged: {:?}",
+                        cluster_id(c),
+                        POLICY_NAMES[pol as usize],
+                        KEYS[kidx as usize],
+                        backend_id_of(old.0, old.1),
+                        backend_id_of(got.0, got.1),
+                        fp.2
+                    );
+                }
+            }
+        }
+        self.memo.insert((c, kidx), (fp, got));
+        Ok(())
+    }
+
+    fn open_on(&mut self, c: usize, inst: usize) -> Result<(), Failure> {
+        let (a, v) = (self.model.insts[inst].a, self.model.insts[inst].v);
+        let Some(rc) = member_rc(&self.map, c, a, v) else {
+            fail!("C12/state-desync:member-missing", "selected member {} is not in sozu's list", backend_id_of(a, v));
+        };
+        let r = rc.borrow_mut().inc_connections();
+        self.model.insts[inst].open += 1;
+        if r != Some(self.model.insts[inst].open) {
+            fail!(
+                "C12/count-drift:inc",
+                "inc_connections on {} returned {r:?}, model open count {}",
+                backend_id_of(a, v),
+                self.model.insts[inst].open
+            );
+        }
+        self.conns.push(Conn { inst, rc, req: false });
+        Ok(())
+    }
+
+    fn end_request(&mut self, ci: usize) {
+        if self.conns[ci].req {
+            let mut b = self.conns[ci].rc.borrow_mut();
+            // what the session code does (kawa_h1 / mux): saturating decrement of the pub field
+            b.active_requests = b.active_requests.saturating_sub(1);
+            drop(b);
+            self.conns[ci].req = false;
+            let inst = self.conns[ci].inst;
+            self.model.insts[inst].reqs -= 1;
+        }
+    }
+
+    fn close(&mut self, ci: usize) -> Result<(), Failure> {
+        self.end_request(ci);
+        let conn = self.conns.remove(ci);
+        let inst = conn.inst;
+        let r = conn.rc.borrow_mut().dec_connections();
+        let mb = &mut self.model.insts[inst];
+        if mb.open == 0 {
+            // cannot happen: a handle exists only after an inc
+            fail!("C12/harness-bug", "close on an instance with model open count 0");
+        }
+        mb.open -= 1;
+        let expect = match mb.st {
+            St::Normal => Some(mb.open),
+            St::Closing => {
+                if mb.open == 0 {
+                    mb.st = St::Closed;
+                    None
+                } else {
+                    Some(mb.open)
+                }
+            }
+            St::Closed => None,
+        };
+        if r != expect {
+            fail!(
+                "C12/count-drift:dec",
+                "dec_connections on {} returned {r:?}, model expects {expect:?}",
+                backend_id_of(mb.a, mb.v)
+            );
+        }
+        if !mb.member {
+            self.flags.drain_after_remove = true;
+            if mb.open == 0 {
+                // last session handle of a removed backend: it must retire now (be dropped)
+                let strong = Rc::strong_count(&conn.rc);
+                if strong != 1 {
+                    fail!(
+                        "C12/removed-backend-not-retired",
+                        "removed backend {} drained to 0 connections but {} other reference(s) keep it alive",
+                        backend_id_of(mb.a, mb.v),
+                        strong - 1
+                    );
+                }
+                self.expected_events.push((backend_id_of(mb.a, mb.v), addr_of(mb.a)));
+                self.flags.retired_after_drain = true;
+            }
+        }
+        drop(conn);
+        Ok(())
+    }
+
+    fn apply(&mut self, op: &Op) -> Result<(), Failure> {
+        match *op {
+            Op::Add { c, a, v, weight, backup, sticky } => {
+                let c = c as usize;
+                if c == 1 {
+                    self.flags.two_clusters = true;
+                }
+                let backend = Backend::new(
+                    &backend_id_of(a, v),
+                    addr_of(a),
+                    sticky.then(|| cookie_of(a, v)),
+                    weight.map(|w| LoadBalancingParams { weight: w as i32 }),
+                    if backup { Some(true) } else { None },
+                );
+                self.map.add_backend(cluster_id(c), backend);
+                self.model.clusters[c].exists = true;
+                if let Some(i) = self.model.find_member(c, a, v) {
+                    // update in place, connection / retry / health state kept
+                    let mb = &mut self.model.insts[i];
+                    if !mb.eligible() && mb.weight != weight {
+                        // the table is rebuilt with a different weight for a member that is not
+                        // in the eligible set (this covers an ineligible twin sharing an address)
+                        self.rebuilt_by_ineligible[c] = true;
+                    }
+                    mb.weight = weight;
+                    mb.backup = backup;
+                    mb.sticky = sticky;
+                    self.flags.in_place_update = true;
+                    // observation (not part of the property): the temporary `Backend` value
+                    // passed to add_backend is dropped, and `Drop for Backend` emits a
+                    // REMOVED_BACKEND_HAS_NO_CONNECTIONS event for a backend that is still live
+                    self.expected_events.push((backend_id_of(a, v), addr_of(a)));
+                    self.flags.update_emits_retire_event = true;
+                } else {
+                    if self.model.insts.iter().any(|b| !b.member && b.a == a && b.v == v) {
+                        self.flags.readd = true;
+                    }
+                    if self.model.clusters[c].members.iter().any(|&i| self.model.insts[i].a == a) {
+                        self.flags.shared_address = true;
+                    }
+                    self.model.insts.push(MB {
+                        a,
+                        v,
+                        weight,
+                        backup,
+                        sticky,
+                        st: St::Normal,
+                        healthy: true,
+                        succ: 0,
+                        fails: 0,
+                        in_backoff: false,
+                        tries: 0,
+                        open: 0,
+                        reqs: 0,
+                        member: true,
+                    });
+                    let i = self.model.insts.len() - 1;
+                    self.model.clusters[c].members.push(i);
+                }
+            }
+            Op::Remove { c, a } => {
+                let c = c as usize;
+                let removed = self.map.remove_backend(cluster_id(c), &addr_of(a));
+                let gone: Vec<usize> = self.model.clusters[c].members.iter().copied().filter(|&i| self.model.insts[i].a == a).collect();
+                self.model.clusters[c].members.retain(|i| !gone.contains(i));
+                let expect_ids: Vec<String> = gone.iter().map(|&i| backend_id_of(self.model.insts[i].a, self.model.insts[i].v)).collect();
+                if removed != expect_ids {
+                    fail!("C12/remove-ids", "remove_backend({}, {}) returned {removed:?}, model expects {expect_ids:?}", cluster_id(c), addr_of(a));
+                }
+                for i in gone {
+                    let mb = &mut self.model.insts[i];
+                    if !mb.eligible() {
+                        // the table is rebuilt without a member that was not in the eligible set
+                        self.rebuilt_by_ineligible[c] = true;
+                    }
+                    mb.member = false;
+                    if mb.open == 0 {
+                        // nobody holds it: dropped (retired) at once
+                        self.expected_events.push((backend_id_of(mb.a, mb.v), addr_of(mb.a)));
+                    }
+                }
+            }
+            Op::SetPolicy { c, algo, metric } => {
+                let c = c as usize;
+                if c == 1 {
+                    self.flags.two_clusters = true;
+                }
+                self.map.set_load_balancing_policy_for_cluster(cluster_id(c), algo_of(algo), metric_of(metric));
+                let mc = &mut self.model.clusters[c];
+                mc.exists = true;
+                mc.policy = algo.min(5);
+                mc.epoch += 1;
+            }
+            Op::HealthFail { c, b, n } => {
+                let c = c as usize;
+                if let Some(i) = self.model.member_idx(c, b) {
+                    let rc = member_rc(&self.map, c, self.model.insts[i].a, self.model.insts[i].v);
+                    for _ in 0..n {
+                        let mb = &mut self.model.insts[i];
+                        mb.succ = 0;
+                        mb.fails += 1;
+                        let flip = mb.healthy && mb.fails >= self.case.th_unhealthy;
+                        if flip {
+                            mb.healthy = false;
+                            self.flags.health_flip = true;
+                        }
+                        if let Some(rc) = &rc {
+                            let got = rc.borrow_mut().health.record_failure(self.case.th_unhealthy);
+                            if got != flip {
+                                fail!("C12/state-desync:health-transition", "record_failure returned {got}, model {flip}");
+                            }
+                        }
+                    }
+                }
+            }
+            Op::HealthOk { c, b, n } => {
+                let c = c as usize;
+                if let Some(i) = self.model.member_idx(c, b) {
+                    let rc = member_rc(&self.map, c, self.model.insts[i].a, self.model.insts[i].v);
+                    for _ in 0..n {
+                        let mb = &mut self.model.insts[i];
+                        mb.fails = 0;
+                        mb.succ += 1;
+                        let flip = !mb.healthy && mb.succ >= self.case.th_healthy;
+                        if flip {
+                            mb.healthy = true;
+                            self.flags.health_flip = true;
+                        }
+                        if let Some(rc) = &rc {
+                            let got = rc.borrow_mut().health.record_success(self.case.th_healthy);
+                            if got != flip {
+                                fail!("C12/state-desync:health-transition", "record_success returned {got}, model {flip}");
+                            }
+                        }
+                    }
+                }
+            }
+            Op::ClearHealth { c } => {
+                let c = c as usize;
+                self.map.set_health_check_config(cluster_id(c), None);
+                for &i in &self.model.clusters[c].members.clone() {
+                    let mb = &mut self.model.insts[i];
+                    if !mb.healthy {
+                        self.flags.health_flip = true;
+                    }
+                    mb.healthy = true;
+                    mb.succ = 0;
+                    mb.fails = 0;
+                }
+            }
+            Op::RetryFail { c, b } => {
+                let c = c as usize;
+                if let Some(i) = self.model.member_idx(c, b) {
+                    if let Some(rc) = member_rc(&self.map, c, self.model.insts[i].a, self.model.insts[i].v) {
+                        let mut be = rc.borrow_mut();
+                        be.retry_policy().fail();
+                        let mb = &mut self.model.insts[i];
+                        if !mb.in_backoff {
+                            // fail() armed a 1..2^tries s window; pin it to a length that cannot
+                            // elapse during the case so the check never depends on the wall clock
+                            be.retry_policy().verif_force_backoff(LONG_BACKOFF);
+                            mb.tries = (mb.tries + 1).min(MAX_TRIES);
+                            mb.in_backoff = true;
+                            self.flags.backoff_flip = true;
+                        }
+                    }
+                }
+            }
+            Op::RetrySucceed { c, b } => {
+                let c = c as usize;
+                if let Some(i) = self.model.member_idx(c, b) {
+                    if let Some(rc) = member_rc(&self.map, c, self.model.insts[i].a, self.model.insts[i].v) {
+                        rc.borrow_mut().retry_policy().succeed();
+                        let mb = &mut self.model.insts[i];
+                        if mb.in_backoff {
+                            self.flags.backoff_flip = true;
+                        }
+                        mb.in_backoff = false;
+                        mb.tries = 0;
+                    }
+                }
+            }
+            Op::ForceDown { c, b } => {
+                let c = c as usize;
+                if let Some(i) = self.model.member_idx(c, b) {
+                    if let Some(rc) = member_rc(&self.map, c, self.model.insts[i].a, self.model.insts[i].v) {
+                        rc.borrow_mut().retry_policy().verif_force_down();
+                        self.model.insts[i].tries = MAX_TRIES;
+                        self.flags.down = true;
+                    }
+                }
+            }
+            Op::ForceBackoff { c, b } => {
+                let c = c as usize;
+                if let Some(i) = self.model.member_idx(c, b) {
+                    if let Some(rc) = member_rc(&self.map, c, self.model.insts[i].a, self.model.insts[i].v) {
+                        rc.borrow_mut().retry_policy().verif_force_backoff(LONG_BACKOFF);
+                        let mb = &mut self.model.insts[i];
+                        if !mb.in_backoff {
+                            self.flags.backoff_flip = true;
+                        }
+                        mb.in_backoff = true;
+                    }
+                }
+            }
+            Op::ExpireBackoff { c, b } => {
+                let c = c as usize;
+                if let Some(i) = self.model.member_idx(c, b) {
+                    if let Some(rc) = member_rc(&self.map, c, self.model.insts[i].a, self.model.insts[i].v) {
+                        rc.borrow_mut().retry_policy().verif_expire_backoff();
+                        let mb = &mut self.model.insts[i];
+                        if mb.in_backoff {
+                            self.flags.backoff_flip = true;
+                        }
+                        mb.in_backoff = false;
+                    }
+                }
+            }
+            Op::MarkClosing { c, b } => {
+                let c = c as usize;
+                if let Some(i) = self.model.member_idx(c, b) {
+                    if let Some(rc) = member_rc(&self.map, c, self.model.insts[i].a, self.model.insts[i].v) {
+                        rc.borrow_mut().set_closing();
+                        self.model.insts[i].st = St::Closing;
+                        self.flags.closing = true;
+                    }
+                }
+            }
+            Op::ConnTime { c, b, ms } => {
+                let c = c as usize;
+                if let Some(i) = self.model.member_idx(c, b) {
+                    if let Some(rc) = member_rc(&self.map, c, self.model.insts[i].a, self.model.insts[i].v) {
+                        rc.borrow_mut().set_connection_time(Duration::from_millis(ms as u64));
+                    }
+                }
+            }
+            Op::Select { c, key } => {
+                self.select(c as usize, key, "select")?;
+            }
+            Op::Open { c, key } => {
+                let c = c as usize;
+                if let Some(inst) = self.select(c, key, "open")? {
+                    self.open_on(c, inst)?;
+                }
+            }
+            Op::OpenSticky { c, a, v } => {
+                let c = c as usize;
+                let cookie = cookie_of(a, v);
+                // model: the cookie's backend, if it is a member carrying that sticky id
+                let owner = self.model.find_member(c, a, v).filter(|&i| self.model.insts[i].sticky);
+                // sozu: BackendMap::backend_from_sticky_session = find_sticky, else plain selection
+                let sticky_pick = self
+                    .map
+                    .backends
+                    .get_mut(cluster_id(c))
+                    .and_then(|l| l.find_sticky(&cookie).map(|b| (b.borrow().backend_id.clone(), b.borrow().address)));
+                let inst = match (owner, sticky_pick) {
+                    (Some(o), pick) if self.model.insts[o].eligible() => {
+                        self.selections += 1;
+                        if self.model.any_ineligible_member(c) {
+                            self.flags.select_with_ineligible = true;
+                        }
+                        let want = (backend_id_of(a, v), addr_of(a));
+                        if pick.as_ref() != Some(&want) {
+                            fail!(
+                                "C12/sticky-ignored",
+                                "cookie {cookie} names eligible member {} but find_sticky returned {pick:?}",
+                                want.0
+                            );
+                        }
+                        self.flags.sticky_hit = true;
+                        let (tier, adm) = self.model.admissible(c);
+                        if !adm.contains(&o) && tier != Tier::None {
+                            self.flags.sticky_backup_wins = true;
+                        }
+                        Some(o)
+                    }
+                    (_, Some(pick)) => {
+                        // the cookie's backend does not qualify (or does not exist), yet sozu honoured a cookie
+                        let why = owner.map(|o| self.model.insts[o].why_not()).unwrap_or("not-member");
+                        fail!(
+                            format!("C12/selected-ineligible:sticky-{why}"),
+                            "cookie {cookie}: find_sticky returned {pick:?} although its backend does not qualify ({why})"
+                        );
+                    }
+                    (_, None) => {
+                        self.flags.sticky_fallback = true;
+                        self.select(c, None, "sticky-fallback")?
+                    }
+                };
+                if let Some(inst) = inst {
+                    self.open_on(c, inst)?;
+                }
+            }
+            Op::Close { conn } => {
+                if !self.conns.is_empty() {
+                    let ci = engine::pick_idx(conn, self.conns.len());
+                    self.close(ci)?;
+                }
+            }
+            Op::StartReq { conn } => {
+                if !self.conns.is_empty() {
+                    let ci = engine::pick_idx(conn, self.conns.len());
+                    if !self.conns[ci].req {
+                        self.conns[ci].rc.borrow_mut().active_requests += 1;
+                        self.conns[ci].req = true;
+                        let inst = self.conns[ci].inst;
+                        self.model.insts[inst].reqs += 1;
+                    }
+                }
+            }
+            Op::EndReq { conn } => {
+                if !self.conns.is_empty() {
+                    let ci = engine::pick_idx(conn, self.conns.len());
+                    self.end_request(ci);
+                }
+            }
+        }
+        Ok(())
+    }
+
+    /// After every op: sozu's observable state equals the model's, counters included.
+    fn sync(&mut self, after: &str) -> Result<(), Failure> {
+        for c in 0..2 {
+            let mc = &self.model.clusters[c];
+            let Some(list) = self.map.backends.get(cluster_id(c)) else {
+                if mc.exists {
+                    fail!("C12/state-desync:cluster-missing", "after {after}: cluster {} absent from the map", cluster_id(c));
+                }
+                continue;
+            };
+            if !mc.exists {
+                fail!("C12/state-desync:cluster-unexpected", "after {after}: cluster {} exists in the map", cluster_id(c));
+            }
+            if list.backends.len() != mc.members.len() {
+                fail!(
+                    "C12/state-desync:membership",
+                    "after {after}: {} has {} backends, model {:?}",
+                    cluster_id(c),
+                    list.backends.len(),
+                    self.describe(&mc.members)
+                );
+            }
+            for (pos, &i) in mc.members.iter().enumerate() {
+                let mb = &self.model.insts[i];
+                let rc = &list.backends[pos];
+                let b = rc.borrow();
+                let name = backend_id_of(mb.a, mb.v);
+                if b.backend_id != name || b.address != addr_of(mb.a) {
+                    fail!("C12/state-desync:membership", "after {after}: position {pos} holds ({}, {}), model {name}", b.backend_id, b.address);
+                }
+                if b.active_connections != mb.open {
+                    fail!(
+                        "C12/count-drift:connections",
+                        "after {after}: {name} active_connections={} but {} connection(s) are open",
+                        b.active_connections,
+                        mb.open
+                    );
+                }
+                if b.active_requests != mb.reqs {
+                    fail!(
+                        "C12/count-drift:requests",
+                        "after {after}: {name} active_requests={} but {} request(s) are in flight",
+                        b.active_requests,
+                        mb.reqs
+                    );
+                }
+                let st = match b.status {
+                    BackendStatus::Normal => St::Normal,
+                    BackendStatus::Closing => St::Closing,
+                    BackendStatus::Closed => St::Closed,
+                };
+                if st != mb.st {
+                    fail!("C12/state-desync:status", "after {after}: {name} status {:?}, model {:?}", b.status, mb.st);
+                }
+                if b.health.is_healthy() != mb.healthy || b.health.consecutive_failures != mb.fails || b.health.consecutive_successes != mb.succ {
+                    fail!("C12/state-desync:health", "after {after}: {name} health {:?}, model healthy={} fails={} succ={}", b.health, mb.healthy, mb.fails, mb.succ);
+                }
+                let okay = b.retry_policy.can_try() == Some(RetryAction::OKAY);
+                if okay == mb.in_backoff {
+                    fail!("C12/state-desync:backoff", "after {after}: {name} can_try()={:?}, model in_backoff={}", b.retry_policy.can_try(), mb.in_backoff);
+                }
+                if b.retry_policy.current_tries() != mb.tries || b.retry_policy.is_down() != (mb.tries >= MAX_TRIES) {
+                    fail!("C12/state-desync:retry-tries", "after {after}: {name} tries={} down={}, model tries={}", b.retry_policy.current_tries(), b.retry_policy.is_down(), mb.tries);
+                }
+                if b.backup != mb.backup
+                    || b.sticky_id != mb.sticky.then(|| cookie_of(mb.a, mb.v))
+                    || b.load_balancing_parameters.map(|p| p.weight) != mb.weight.map(|w| w as i32)
+                {
+                    fail!("C12/state-desync:config", "after {after}: {name} backup={} sticky={:?} weight={:?}, model {mb:?}", b.backup, b.sticky_id, b.load_balancing_parameters);
+                }
+                drop(b);
+                let held = self.conns.iter().filter(|k| k.inst == i).count();
+                if Rc::strong_count(rc) != 1 + held {
+                    fail!("C12/state-desync:references", "after {after}: {name} has {} references, expected list + {held} session(s)", Rc::strong_count(rc));
+                }
+            }
+        }
+        // removed backends still draining: the sessions' handle carries the count
+        for k in &self.conns {
+            let mb = &self.model.insts[k.inst];
+            if mb.member {
+                continue;
+            }
+            let b = k.rc.borrow();
+            if b.active_connections != mb.open || b.active_requests != mb.reqs {
+                fail!(
+                    "C12/count-drift:draining",
+                    "after {after}: removed backend {} active_connections={} active_requests={}, model open={} reqs={}",
+                    b.backend_id,
+                    b.active_connections,
+                    b.active_requests,
+                    mb.open,
+                    mb.reqs
+                );
+            }
+            let held = self.conns.iter().filter(|x| x.inst == k.inst).count();
+            if Rc::strong_count(&k.rc) != held {
+                fail!(
+                    "C12/removed-backend-not-retired",
+                    "after {after}: removed backend {} is referenced {} times but only {held} session(s) hold it",
+                    b.backend_id,
+                    Rc::strong_count(&k.rc)
+                );
+            }
+        }
+        // retirement notifications: exactly the instances that were dropped during this op
+        let mut expected = std::mem::take(&mut self.expected_events);
+        expected.sort();
+        let got = drain_retire_events();
+        if got != expected {
+            let sig = if got.len() < expected.len() { "C12/retire-event-missing" } else { "C12/retire-event-unexpected" };
+            fail!(sig, "after {after}: REMOVED_BACKEND_HAS_NO_CONNECTIONS events {got:?}, model expects {expected:?}");
+        }
+        Ok(())
+    }
+
+    /// HRW / Maglev: probe every key after every op (keyed selection has no side effect on these policies)
+    fn probe_affinity(&mut self) -> Result<(), Failure> {
+        for c in 0..2 {
+            if !self.model.clusters[c].exists {
+                continue;
+            }
+            let fp = self.model.fingerprint(c);
+            let rebuilt = std::mem::take(&mut self.rebuilt_by_ineligible[c]);
+            if self.last_fp[c].as_ref() != Some(&fp) {
+                // "while the eligible set is unchanged": any change in between ends the affinity window
+                self.memo.retain(|(cc, _), _| *cc != c);
+                self.last_fp[c] = Some(fp);
+            } else if rebuilt && self.model.clusters[c].policy == 5 && self.case.affinity && !self.case.strict {
+                // known finding C12/affinity-moved:maglev, excluded by construction: the Maglev
+                // table is built over all members, so rebuilding it after a change to an
+                // ineligible member re-homes keys between the unchanged eligible backends.
+                // The window ends here; `strict` cases keep it open and fail with the signature.
+                if self.memo.keys().any(|(cc, _)| *cc == c) {
+                    self.excluded_known += 1;
+                    self.flags.maglev_rebuild_excluded = true;
+                }
+                self.memo.retain(|(cc, _), _| *cc != c);
+            }
+            if self.model.clusters[c].policy < 4 {
+                continue;
+            }
+            for k in 0..KEYS.len() as u8 {
+                self.select(c, Some(k), "probe")?;
+            }
+        }
+        Ok(())
+    }
+}
+
+// ------------------------------------------------------------------ check
+
+pub fn check(case: &Case) -> CheckResult {
+    QUEUE.with(|q| q.borrow_mut().clear());
+    let mut cx = Ctx {
+        case,
+        map: BackendMap::new(),
+        model: Model { insts: vec![], clusters: [MCluster { policy: 1, ..Default::default() }, MCluster { policy: 1, ..Default::default() }] },
+        conns: vec![],
+        rep: CaseReport::default(),
+        memo: BTreeMap::new(),
+        last_fp: [None, None],
+        rebuilt_by_ineligible: [false, false],
+        excluded_known: 0,
+        expected_events: vec![],
+        selections: 0,
+        flags: Flags::default(),
+    };
+    let res = run_history(&mut cx);
+    // whatever happened, leave the thread-local event queue empty for the next case
+    let Ctx { map, conns, rep, .. } = cx;
+    drop(conns);
+    drop(map);
+    QUEUE.with(|q| q.borrow_mut().clear());
+    res.map(|()| rep)
+}
+
+fn run_history(cx: &mut Ctx) -> Result<(), Failure> {
+    for (n, op) in cx.case.ops.iter().enumerate() {
+        cx.apply(op)?;
+        for c in 0..2 {
+            let p = cx.model.clusters[c].policy as usize;
+            if cx.model.clusters[c].exists && !cx.model.clusters[c].members.is_empty() {
+                cx.flags.policies[p] = true;
+            }
+        }
+        let after = format!("op #{n} {op:?}");
+        cx.sync(&after)?;
+        cx.probe_affinity()?;
+        cx.sync(&format!("probes after op #{n}"))?;
+    }
+    // traffic ends: close everything, every count must be back to zero
+    while !cx.conns.is_empty() {
+        let ci = cx.conns.len() - 1;
+        cx.close(ci)?;
+        cx.sync("final close")?;
+    }
+    for c in 0..2 {
+        if let Some(list) = cx.map.backends.get(cluster_id(c)) {
+            for b in &list.backends {
+                let b = b.borrow();
+                if b.active_connections != 0 || b.active_requests != 0 {
+                    fail!(
+                        "C12/count-not-zero-at-end",
+                        "all connections closed but {} has active_connections={} active_requests={}",
+                        b.backend_id,
+                        b.active_connections,
+                        b.active_requests
+                    );
+                }
+            }
+        }
+    }
+    if let Some(mb) = cx.model.insts.iter().find(|b| b.open != 0 || b.reqs != 0) {
+        fail!("C12/harness-bug", "model counts not zero at end: {mb:?}");
+    }
+
+    let f = &cx.flags;
+    let nontrivial = (f.readd || f.health_flip || f.backoff_flip) && f.select_with_ineligible;
+    let rep = &mut cx.rep;
+    rep.nontrivial = nontrivial;
+    rep.inner_evaluations = cx.selections;
+    rep.excluded_known = cx.excluded_known;
+    rep.class_if(f.readd, "remove_then_readd");
+    rep.class_if(f.health_flip, "health_flip");
+    rep.class_if(f.backoff_flip, "backoff_flip");
+    rep.class_if(f.select_with_ineligible, "selection_with_ineligible_member");
+    rep.class_if(f.tier_primary, "tier_primary");
+    rep.class_if(f.tier_backup, "tier_backup");
+    rep.class_if(f.tier_failopen, "tier_fail_open");
+    rep.class_if(f.tier_none, "tier_none");
+    rep.class_if(f.sticky_hit, "sticky_honoured");
+    rep.class_if(f.sticky_backup_wins, "sticky_beats_cascade");
+    rep.class_if(f.sticky_fallback, "sticky_fallback");
+    rep.class_if(f.drain_after_remove, "removed_backend_draining");
+    rep.class_if(f.retired_after_drain, "removed_backend_retired_after_drain");
+    rep.class_if(f.in_place_update, "in_place_update");
+    rep.class_if(f.shared_address, "shared_address");
+    rep.class_if(f.two_clusters, "two_clusters");
+    rep.class_if(f.closing, "marked_closing");
+    rep.class_if(f.down, "retry_budget_exhausted");
+    rep.class_if(f.affinity_repeat, "affinity_key_repeated_on_unchanged_set");
+    rep.class_if(f.maglev_rebuild_excluded, "maglev_rebuild_with_unchanged_eligible_set");
+    rep.class_if(f.update_emits_retire_event, "obs_update_emits_retire_event");
+    for (i, used) in f.policies.iter().enumerate() {
+        rep.class_if(*used, &format!("policy_{}", POLICY_NAMES[i]));
+    }
+    Ok(())
+}
+
+// ------------------------------------------------------------------ run
+
+pub fn run(args: &Args) -> i32 {
+    let mut ev = Evidence::new(args, "exploration");
+    let common = "history = SetPolicy + 1..5 Add, then 0..45 ops (add / in-place update / address-keyed remove / re-add, policy change over the 6 algorithms and 3 metrics, health probe results against per-case thresholds 1..3, health-config reset, retry fail/succeed, forced down / back-off / expiry via the verif hooks, set_closing, select, open, sticky open, close, request start/end) over 1..6 addresses (one IPv6), optional second id on an address, 1..2 clusters, applied to the real sozu_lib::backends::BackendMap. Oracle: a reference model {member, status, healthy, in back-off, backup, sticky, weight, open connections, requests}; every selection result must lie in the admissible set (eligible primaries, else eligible backups, else the documented fail-open set Normal ∧ not backing off, else none); a cookie whose backend qualifies must win and a cookie whose backend does not qualify must not be honoured; after every op sozu's list, per-backend status/health/retry state, active_connections and active_requests equal the model and the reference counts show nobody else holds a backend; removed backends keep counting down on the sessions' handles, retire (drop + REMOVED_BACKEND_HAS_NO_CONNECTIONS) exactly when the last one closes; at the end everything is closed and all counts are zero. With HRW/Maglev in force all 8 keys are probed after every op. Non-trivial: a remove-then-re-add or a health / back-off flip, and a selection made while >= 1 member of the cluster is ineligible; distinct by case hash.";
+    ev.rule("history", &format!("policies: round robin, random, least loaded, HRW, Maglev. {common}"));
+    ev.rule("power_of_two", "same generator and oracle as `history`, the policy in force is always power-of-two (metric connections / requests / connection time / default).");
+    let aff = "same generator restricted to one affinity policy with mostly keyed selections; same oracle as `history` plus: the same key yields the same backend for as long as the cluster's eligible set (eligible members with their weight and backup flag; the fail-open set when nobody is eligible; the policy object) has not changed at any point in between";
+    ev.rule("affinity_hrw", &format!("{aff}; policy HRW."));
+    ev.rule("affinity_maglev", &format!("{aff}; policy Maglev. Known finding C12/affinity-moved:maglev excluded by construction: an op that makes sozu rebuild the Maglev table with different inputs while the eligible set is unchanged (removal, or in-place weight update, of a member that is not eligible) ends the affinity window for all keys (counted in excluded_known, class maglev_rebuild_with_unchanged_eligible_set); the committed strict reproducer keeps the window open."));
+    ev.assume("'inside its failure back-off' is retry_policy.can_try() != OKAY; an exhausted retry budget (is_down) whose window has elapsed is not a back-off (Backend::can_open does not look at is_down)");
+    ev.assume("back-off windows are pinned to 3600 s through the verif hooks right after fail(), so the wall clock never decides a verdict");
+    ev.assume("the in-process tier selects through BackendMap::backend_from_cluster_id_with_key and BackendList::find_sticky (+ the same fallback as backend_from_sticky_session); the TCP entry points differ only by try_connect, which needs a live peer (wire-lab tier)");
+    ev.assume("a connection is the Rc<RefCell<Backend>> handle a session holds: inc_connections on open, dec_connections on close; BackendMap::close_backend_connection (address-keyed, no caller in sozu) is not driven");
+    ev.assume("sticky ids are unique per backend; weights stay in the configuration file's domain 0..=255");
+    ev.notes.push(
+        "observation outside the property text (class obs_update_emits_retire_event): BackendList::add_backend on an existing (address, id) drops the temporary Backend value, whose Drop impl emits REMOVED_BACKEND_HAS_NO_CONNECTIONS for a backend that is still live; the model expects this event so that the drain-then-retire oracle stays exact".to_string(),
+    );
+    const SUBS: [(&str, Mode, u64, u64); 4] = [
+        ("history", Mode::History, 15_000, 300_000),
+        ("power_of_two", Mode::PowerOfTwo, 3_000, 60_000),
+        ("affinity_hrw", Mode::Hrw, 3_000, 60_000),
+        ("affinity_maglev", Mode::Maglev, 2_000, 40_000),
+    ];
+    for (sub, mode, quick, thorough) in SUBS {
+        ev.floor(sub, "selection_with_ineligible_member", 0.5);
+        ev.floor(sub, "health_flip", 0.3);
+        ev.floor(sub, "backoff_flip", 0.3);
+        ev.floor(sub, "remove_then_readd", 0.1);
+        ev.floor(sub, "tier_backup", 0.05);
+        ev.floor(sub, "tier_fail_open", 0.05);
+        ev.floor(sub, "sticky_honoured", 0.2);
+        ev.floor(sub, "removed_backend_retired_after_drain", 0.1);
+        match mode {
+            Mode::History => {
+                for p in ["round_robin", "random", "least_loaded", "hrw", "maglev"] {
+                    ev.floor(sub, &format!("policy_{p}"), 0.1);
+                }
+            }
+            Mode::PowerOfTwo => ev.floor(sub, "policy_power_of_two", 0.9),
+            Mode::Hrw => {
+                ev.floor(sub, "policy_hrw", 0.9);
+                ev.floor(sub, "affinity_key_repeated_on_unchanged_set", 0.8);
+            }
+            Mode::Maglev => {
+                ev.floor(sub, "policy_maglev", 0.9);
+                ev.floor(sub, "affinity_key_repeated_on_unchanged_set", 0.8);
+                // the excluded known shape must stay a measured minority, not silently vanish
+                ev.floor(sub, "maglev_rebuild_with_unchanged_eligible_set", 0.1);
+            }
+        }
+        let cases = args.cases(quick, thorough);
+        // sozu's uninitialised logger prints error-level lines ("all backends are down") to stdout
+        engine::with_quiet_stdout(|| engine::run_pbt(&mut ev, args, sub, cases, move || strategy_for(mode), check));
+    }
+    ev.finish()
 }
